@@ -59,7 +59,7 @@ Lemma to_le_chk_u64 n : 0 <= n < 2 ^ 64 -> to_le_chk 8 n = Ok (u64le n).
 Proof. intros H. apply to_le_chk_ok. change (256 ^ Z.of_nat 8) with (2 ^ 64). exact H. Qed.
 
 (* ---------- utils.compact_size_uint = the developer reference's CompactSize below 2^64 ---------- *)
-Lemma compact_size_uint_spec n : 0 <= n < 2 ^ 64 -> compact_size_uint n = Ok (Some (cs_enc n)).
+Lemma compact_size_uint_spec n : 0 <= n < 2 ^ 64 -> compact_size_uint n = Ok (cs_enc n).
 Proof.
   intros [H0 H1]. unfold compact_size_uint, cs_enc.
   change 0xFFFF with 65535. change 0x10000 with 65536. change 0xFFFFFFFF with 4294967295.
@@ -77,14 +77,14 @@ Proof.
   destruct (Z.leb_spec n 18446744073709551615); [reflexivity|lia].
 Qed.
 
-(* above the 8-byte range the function returns None and every caller's concatenation is a TypeError *)
-Lemma compact_size_uint_none n : 2 ^ 64 <= n -> compact_size_uint n = Ok None.
+(* above the 8-byte range (and below 0) the function raises ValueError *)
+Lemma compact_size_uint_err n : n < 0 \/ 2 ^ 64 <= n -> compact_size_uint n = Err ValueE.
 Proof.
   intros H. unfold compact_size_uint.
   change 0xFFFF with 65535. change 0x10000 with 65536. change 0xFFFFFFFF with 4294967295.
   change 0x100000000 with 4294967296. change 0xFFFFFFFFFFFFFFFF with 18446744073709551615.
   change (2 ^ 64) with 18446744073709551616 in H.
-  destruct (Z.ltb_spec n 0); [lia|].
+  destruct (Z.ltb_spec n 0); [reflexivity|].
   destruct (Z.leb_spec n 252); [lia|]. rewrite andb_false_r.
   destruct (Z.leb_spec n 65535); [lia|]. rewrite andb_false_r.
   destruct (Z.leb_spec n 4294967295); [lia|]. rewrite andb_false_r.
@@ -101,15 +101,15 @@ Lemma ser_in_spec i : wf_txin i -> ser_in i = Ok (ser_txin i).
 Proof.
   intros (Hid & Hv & Hs & Hl). unfold ser_in, outpoint, txin.
   rewrite (to_le_chk_u32 _ Hv). cbn [bind]. rewrite (to_le_chk_u32 _ Hs). cbn [bind].
-  rewrite compact_size_uint_spec by lia. cbn [bind bytes_add_opt].
-  unfold ser_txin, ser_outpoint, ser_script. now rewrite <- !app_assoc.
+  rewrite compact_size_uint_spec by lia. cbn [bind].
+  unfold ser_txin, ser_outpoint, ser_script. now rewrite <- ?app_assoc.
 Qed.
 
 Lemma ser_out_spec o : wf_txout o -> ser_out o = Ok (ser_txout o).
 Proof.
   intros (Hv & Hl). unfold ser_out, txout.
-  rewrite (to_le_chk_u64 _ Hv). cbn [bind]. rewrite compact_size_uint_spec by lia. cbn [bind bytes_add_opt].
-  unfold ser_txout, ser_script. now rewrite <- !app_assoc.
+  rewrite (to_le_chk_u64 _ Hv). cbn [bind]. rewrite compact_size_uint_spec by lia. cbn [bind].
+  unfold ser_txout, ser_script. now rewrite <- ?app_assoc.
 Qed.
 
 (* the two slices witness_message takes from a serialised input *)
